@@ -560,12 +560,14 @@ struct TermResult {
     /// action executions per fire_all call (the last entry is the call that did not return)
     actions_per_call: Vec<u64>,
     per_rule: Vec<u64>,
+    /// per rule: the largest number of executions inside ONE fire_all call
+    per_rule_max_in_call: Vec<u64>,
     panic: Option<String>,
 }
 
 impl TermResult {
     fn to_json(&self) -> Json {
-        json!({"skipped": self.skipped, "returned": self.returned, "actions_per_call": self.actions_per_call, "per_rule": self.per_rule, "panic": self.panic})
+        json!({"skipped": self.skipped, "returned": self.returned, "actions_per_call": self.actions_per_call, "per_rule": self.per_rule, "per_rule_max_in_call": self.per_rule_max_in_call, "panic": self.panic})
     }
     fn from_json(j: &Json) -> Option<TermResult> {
         Some(TermResult {
@@ -573,6 +575,7 @@ impl TermResult {
             returned: j.get("returned")?.as_bool()?,
             actions_per_call: j.get("actions_per_call")?.as_array()?.iter().filter_map(|v| v.as_u64()).collect(),
             per_rule: j.get("per_rule")?.as_array()?.iter().filter_map(|v| v.as_u64()).collect(),
+            per_rule_max_in_call: j.get("per_rule_max_in_call").and_then(|v| v.as_array()).map(|a| a.iter().filter_map(|v| v.as_u64()).collect()).unwrap_or_default(),
             panic: j.get("panic").and_then(|v| v.as_str()).map(|s| s.to_string()),
         })
     }
@@ -581,15 +584,30 @@ impl TermResult {
 struct Counter {
     in_call: AtomicU64,
     per_rule: Vec<AtomicU64>,
+    per_rule_in_call: Vec<AtomicU64>,
+    per_rule_max_in_call: Vec<AtomicU64>,
     limit: u64,
 }
 
 impl Counter {
+    fn new(nrules: usize, limit: u64) -> Counter {
+        let z = |n: usize| (0..n).map(|_| AtomicU64::new(0)).collect::<Vec<_>>();
+        Counter { in_call: AtomicU64::new(0), per_rule: z(nrules), per_rule_in_call: z(nrules), per_rule_max_in_call: z(nrules), limit }
+    }
     fn tick(&self, idx: usize) {
         self.per_rule[idx].fetch_add(1, Ordering::Relaxed);
+        let k = self.per_rule_in_call[idx].fetch_add(1, Ordering::Relaxed) + 1;
+        self.per_rule_max_in_call[idx].fetch_max(k, Ordering::Relaxed);
         let n = self.in_call.fetch_add(1, Ordering::Relaxed) + 1;
         if n > self.limit {
             panic!("{}", PANIC_MARK);
+        }
+    }
+    /// start of one fire_all call
+    fn begin_call(&self) {
+        self.in_call.store(0, Ordering::Relaxed);
+        for a in &self.per_rule_in_call {
+            a.store(0, Ordering::Relaxed);
         }
     }
 }
@@ -657,10 +675,11 @@ fn flat_facts(c: &TermCase) -> HashMap<String, String> {
 
 /// Run one termination program in THIS process (the caller is a worker child, or a replay).
 fn run_term(c: &TermCase) -> TermResult {
-    let counter = Arc::new(Counter { in_call: AtomicU64::new(0), per_rule: (0..c.rules.len()).map(|_| AtomicU64::new(0)).collect(), limit: c.limit() });
+    let counter = Arc::new(Counter::new(c.rules.len(), c.limit()));
     let mut res = TermResult::default();
     let finish = |res: &mut TermResult, counter: &Counter| {
         res.per_rule = counter.per_rule.iter().map(|a| a.load(Ordering::Relaxed)).collect();
+        res.per_rule_max_in_call = counter.per_rule_max_in_call.iter().map(|a| a.load(Ordering::Relaxed)).collect();
     };
     let gr_entry = c.entry == "IncrementalEngine::fire_all" || c.entry == "TypedReteUlEngine::fire_all";
     if gr_entry {
@@ -702,7 +721,7 @@ fn run_term(c: &TermCase) -> TermResult {
                     engine.insert(t.clone(), fields_to_typed(f));
                 }
                 for _ in 0..c.calls.max(1) {
-                    counter.in_call.store(0, Ordering::Relaxed);
+                    counter.begin_call();
                     let _ = engine.fire_all();
                     per_call.push(counter.in_call.load(Ordering::Relaxed));
                 }
@@ -743,7 +762,7 @@ fn run_term(c: &TermCase) -> TermResult {
             let r = pan::catch_frames(|| {
                 let mut per_call = Vec::new();
                 for _ in 0..c.calls.max(1) {
-                    counter.in_call.store(0, Ordering::Relaxed);
+                    counter.begin_call();
                     let _ = engine.fire_all();
                     per_call.push(counter.in_call.load(Ordering::Relaxed));
                 }
@@ -783,7 +802,7 @@ fn run_term(c: &TermCase) -> TermResult {
                     engine.set_fact(k.clone(), v.clone());
                 }
                 for _ in 0..c.calls.max(1) {
-                    counter.in_call.store(0, Ordering::Relaxed);
+                    counter.begin_call();
                     let _ = engine.fire_all();
                     per_call.push(counter.in_call.load(Ordering::Relaxed));
                 }
@@ -809,7 +828,7 @@ fn run_term(c: &TermCase) -> TermResult {
                     })
                     .collect();
                 for _ in 0..c.calls.max(1) {
-                    counter.in_call.store(0, Ordering::Relaxed);
+                    counter.begin_call();
                     let _ = fire_rete_ul_rules_with_agenda(&mut rules, &mut facts);
                     per_call.push(counter.in_call.load(Ordering::Relaxed));
                 }
@@ -830,7 +849,7 @@ fn run_term(c: &TermCase) -> TermResult {
                     })
                     .collect();
                 for _ in 0..c.calls.max(1) {
-                    counter.in_call.store(0, Ordering::Relaxed);
+                    counter.begin_call();
                     let _ = fire_rete_ul_rules(&mut rules, &mut facts);
                     per_call.push(counter.in_call.load(Ordering::Relaxed));
                 }
@@ -863,6 +882,13 @@ fn judge_term(c: &TermCase, r: &TermResult) -> Option<Viol> {
         return Some(Viol { clause: "does-not-return".into(), cause: format!("{}|panics|{}", c.entry, class), detail: format!("{} panicked instead of returning: {}", c.entry, p) });
     }
     if !r.returned {
+        if c.entry != "fire_rete_ul_rules" {
+            // a no-loop rule that re-fires without bound is a no-loop violation first of all
+            let (imax, _) = r.per_rule.iter().enumerate().max_by_key(|(_, n)| **n).map(|(i, n)| (i, *n)).unwrap_or((0, 0));
+            if c.rules.get(imax).map(|x| x.no_loop).unwrap_or(false) && r.per_rule_max_in_call.get(imax).copied().unwrap_or(0) > 1 && !c.rules.iter().any(|x| x.acts.contains(&Act::Clear)) {
+                return Some(Viol { clause: "no-loop".into(), cause: format!("{}|no-loop-rule-executed-twice-in-one-call", c.entry), detail: format!("{}: no-loop rule {} was executed {} times inside one call (which did not return)", c.entry, c.rules[imax].name, r.per_rule_max_in_call[imax]) });
+            }
+        }
         // which rule was refiring?
         let (imax, nmax) = r.per_rule.iter().enumerate().max_by_key(|(_, n)| **n).map(|(i, n)| (i, *n)).unwrap_or((0, 0));
         let honours_no_loop = c.entry != "fire_rete_ul_rules";
@@ -889,6 +915,15 @@ fn judge_term(c: &TermCase, r: &TermResult) -> Option<Viol> {
                 nmax
             ),
         });
+    }
+    // a no-loop rule executes at most once inside one call (no reset can happen inside a call)
+    if c.entry != "fire_rete_ul_rules" {
+        for (i, rule) in c.rules.iter().enumerate() {
+            let m = r.per_rule_max_in_call.get(i).copied().unwrap_or(0);
+            if rule.no_loop && m > 1 {
+                return Some(Viol { clause: "no-loop".into(), cause: format!("{}|no-loop-rule-executed-twice-in-one-call", c.entry), detail: format!("{}: no-loop rule {} was executed {} times inside one call", c.entry, rule.name, m) });
+            }
+        }
     }
     // returned: within its iteration bound?
     let bound = match c.entry.as_str() {
@@ -1307,7 +1342,7 @@ impl Check for C07 {
         });
         st.exhaustive.push(format!("agenda: all {}^{} = {} sequences of length {} (every prefix is monitored, so all shorter ones too) over 16 add_activation variants (2 rules [one no-loop] x salience 1|2 x agenda group MAIN|G1 x activation group none|X), get_next_activation, get_next_activation+mark_rule_fired, set_focus(MAIN), set_focus(G1), reset_fired_flags", na, len, total, len));
         // ---- Part A random
-        let per = cli.n(4_000, 70_000);
+        let per = cli.n(8_000, 100_000);
         shards(cli, nthreads, st, |_shard, rng, st| {
             for _ in 0..per {
                 if cli.expired() {
@@ -1319,7 +1354,7 @@ impl Check for C07 {
             }
         });
         // ---- Part C engine-level
-        let per_c = cli.n(400, 12_000);
+        let per_c = cli.n(800, 20_000);
         shards(cli, nthreads, st, |_shard, rng, st| {
             for i in 0..per_c {
                 if cli.expired() {
@@ -1368,7 +1403,7 @@ impl Check for C07 {
             st.merge(probe);
         }
         // ---- Part B termination, in children
-        let per_b = cli.n(20, 320); // programs per shard; x16 shards = 320 quick
+        let per_b = cli.n(30, 640); // programs per shard; x16 shards = 480 quick
         shards(cli, nthreads, st, |shard, rng, st| {
             let mut cases = Vec::new();
             for i in 0..per_b {
